@@ -10,9 +10,10 @@ Theorem C18_parse_render_utc : forall y mo d h mi sec tl zl,
 Proof. exact parse_render_utc. Qed.
 Print Assumptions C18_parse_render_utc.
 
-(* the day count behind civil_instant is the proleptic Gregorian calendar on every month of years 0000-9999 *)
+(* the day count behind civil_instant is the proleptic Gregorian calendar: every month of every year from 0 on
+   (one 400-year cycle evaluated by the kernel + 400-year periodicity of the formula) *)
 Theorem C18_day_count_is_gregorian : forall y m,
-  (0 <= y <= 9999 -> 1 <= m <= 12 ->
+  (0 <= y -> 1 <= m <= 12 ->
   let '(y', m') := next_month y m in days_from_civil y' m' 1 = days_from_civil y m 1 + days_in_month y m)%Z.
 Proof. exact day_count_matches_calendar. Qed.
 Print Assumptions C18_day_count_is_gregorian.
